@@ -521,6 +521,10 @@ func (g *egen) math(depth int, cls string) *RE {
 func (g *egen) boolExpr(depth int) *RE {
 	r := g.r
 	if depth <= 0 || r.chance(1, 4) {
+		if r.chance(1, 8) {
+			// a condition with a side effect the host sees: evaluated exactly once, in order
+			return mkBin("cmp", []string{"==", ">", "<="}[r.intn(3)], &RE{Op: "call", Kind: "func", Sym: "bump"}, lit("int64", strconv.Itoa(r.intn(4))))
+		}
 		p := r.intn(10)
 		switch {
 		case p < 6:
@@ -898,6 +902,10 @@ func (g *egen) concStmt() *RS {
 	if r.chance(1, 3) {
 		pool = append(pool, &RS{Op: "call", E: &RE{Op: "call", Kind: "method", Sym: "S.Echo32", Args: []*RE{g.smallNum()}}})
 	}
+	for k, n := 0, r.intn(4); k < n; k++ {
+		g.noteN++
+		pool = append(pool, &RS{Op: "call", E: &RE{Op: "call", Kind: "three", Sym: "S.Sub.Mark", Args: []*RE{lit("int64", strconv.Itoa(g.noteN))}}})
+	}
 	if r.chance(1, 6) || (g.illP > 50 && r.chance(1, 2)) {
 		switch r.intn(4) {
 		case 0:
@@ -917,7 +925,7 @@ func (g *egen) concStmt() *RS {
 	// ConcStatement keeps its children grouped (assignments, function calls, method calls); the
 	// children are independent, so the generator writes them in that order
 	var items []*RS
-	for _, pass := range []string{"assign", "func", "method"} {
+	for _, pass := range []string{"assign", "func", "method", "three"} {
 		for _, it := range shuffled {
 			k := it.Op
 			if k == "call" {
